@@ -116,7 +116,7 @@ fn echo_expect(i: &Inputs, ncomp: usize) -> Class {
 
 fn echo(m: &mut Monitor, cfg: &Config) {
     let col = Collections::load();
-    let ncases: u64 = cfg.tier.pick(250, 1024 * 3);
+    let ncases: u64 = cfg.tier.pick(256 * 6, 256 * 16);
     let idx: Vec<u64> = (0..ncases).collect();
     par_cases(m, &idx, |m, _, &i| {
         let mut rng = Rng::derive(cfg.seed, "c03-echo", i);
@@ -129,8 +129,8 @@ fn echo(m: &mut Monitor, cfg: &Config) {
             return;
         };
         let eos = &mc.eos;
-        // subset mask: exhaustive over 8 bits x (hint) at thorough, random at quick
-        let mask = if cfg.tier == Tier::Thorough { (i % 256) as u32 } else { rng.below(256) as u32 };
+        // subset mask: exhaustive over the 8 bits, 6 (quick) / 16 (thorough) random value sets each
+        let mask = (i % 256) as u32;
         let base = sample_state(&mc, &mut rng, 1.05, 2.0);
         let x = base.x.clone();
         let rho = base.rho.min(0.3 * max_density(eos, &x));
@@ -293,7 +293,7 @@ fn g_res(eos: &Arc<Model>, t: f64, rho: f64) -> Option<f64> {
 
 fn tp_grid(m: &mut Monitor, cfg: &Config) {
     let recs = shipped_pcsaft(GROSS_FILES);
-    let (nt, np) = cfg.tier.pick((9, 7), (49, 41));
+    let (nt, np) = cfg.tier.pick((13, 9), (49, 41));
     par_cases(m, &recs, |m, ci, s| {
         let spec = Spec::new(Kind::PcSaft, vec![s.record.clone()]);
         let Ok(eos) = spec.build() else {
@@ -376,7 +376,7 @@ fn tp_grid(m: &mut Monitor, cfg: &Config) {
 
 fn tp_random(m: &mut Monitor, cfg: &Config) {
     let col = Collections::load();
-    let n = cfg.tier.pick(3000, 150_000);
+    let n = cfg.tier.pick(12_000, 150_000);
     let idx: Vec<u64> = (0..n).collect();
     par_cases(m, &idx, |m, _, &i| {
         let mut rng = Rng::derive(cfg.seed, "c03-tp", i / 20);
@@ -441,7 +441,7 @@ fn tp_random(m: &mut Monitor, cfg: &Config) {
 
 fn caloric_targets(m: &mut Monitor, cfg: &Config) {
     let col = Collections::load();
-    let n = cfg.tier.pick(600, 30_000);
+    let n = cfg.tier.pick(2500, 30_000);
     let idx: Vec<u64> = (0..n).collect();
     par_cases(m, &idx, |m, _, &i| {
         let mut rng = Rng::derive(cfg.seed, "c03-cal", i / 10);
